@@ -184,6 +184,22 @@ theorem general_engine_eq_spec (opt : Opt) (input : Bytes)
     readAndCutStr opt input = specRun (cfgOf opt) input :=
   readAndCutStr_eq_specRun opt input hd hre hty hjson hz hL
 
+/-- the same when `boundsType = .lines` (`cut_lines` hands its single record to the same engine,
+    which treats `.lines` exactly like `.fields`) -/
+theorem general_engine_eq_spec_gen (opt : Opt) (input : Bytes)
+    (hd : opt.delimiter ≠ []) (hre : opt.regexBag = none)
+    (hty : opt.boundsType = .fields ∨ opt.boundsType = .lines)
+    (hjson : opt.json = false) (hz : AllNonzero opt.bounds.list) (hL : LastMarked opt.bounds.list) :
+    readAndCutStr opt input = specRun (cfgOf opt) input :=
+  readAndCutStr_eq_specRun_gen opt input hd hre hty hjson hz hL
+
+theorem general_record_eq_spec_gen (opt : Opt) (line : Bytes) (f₀ : List Range) (b₀ : Bytes)
+    (hd : opt.delimiter ≠ []) (hre : opt.regexBag = none)
+    (hty : opt.boundsType = .fields ∨ opt.boundsType = .lines)
+    (hjson : opt.json = false) (hz : AllNonzero opt.bounds.list) (hL : LastMarked opt.bounds.list) :
+    (cutStr line opt f₀ b₀ [opt.eol.byte]).1 = specRecord (cfgOf opt) line :=
+  cutStr_eq_spec_gen opt line hd hre hty hjson hz hL
+
 /-- **C01, for every `--fields` argument the parser accepts.** -/
 theorem general_engine_eq_spec_of_parsed (opt : Opt) (input : Bytes) (fieldsArg : List Char)
     (hparse : boundsListOfString fieldsArg = .ok opt.bounds)
